@@ -123,7 +123,9 @@ Theorem eviction_eligible cs s s' lg x :
     nodes (a_pre r) !! a_node r = Some n /\ (exists i, n_tasks n !! i = Some c) /\
     cand_ok E (a_kind r) (a_pre r) (a_task r) (a_queue r) c = true /\
     c ∈ a_cands r /\
-    exists tier, deciding eps E (a_kind r) (a_pre r) (a_task r) (a_cands r) tier /\
+    (* E with the capacity plugin's pop order of this vote installed; nothing else differs *)
+    let E' := with_qorder E (a_qorder r) in
+    exists tier, deciding eps E' (a_kind r) (a_pre r) (a_task r) (a_cands r) tier /\
       forall pl, pl ∈ tier -> plug_enabled (a_kind r) pl = true ->
         match p_kind pl with
         | KGang => c ∈ gang_vote (a_pre r) (a_cands r)
@@ -131,18 +133,20 @@ Theorem eviction_eligible cs s s' lg x :
         | KPrio => is_reclaim (a_kind r) = false ->
             (t_job c <> t_job (a_task r) /\ jprio E (t_job c) < jprio E (t_job (a_task r))) \/
             (t_job c = t_job (a_task r) /\ t_prio c < t_prio (a_task r))
-        | KProp => is_reclaim (a_kind r) = true -> c ∈ prop_vote eps E (a_pre r) (a_cands r)
+        | KProp => is_reclaim (a_kind r) = true -> c ∈ prop_vote eps E' (a_pre r) (a_cands r)
+        | KCap => is_reclaim (a_kind r) = true -> c ∈ cap_vote eps E' (a_pre r) (a_task r) (a_cands r)
         end.
 Proof.
   intros Hcl Hok Hr Hx Hnx.
   destruct (evictions_only_with_placement cs s s' lg Hcl Hok Hr x Hx) as [?|(r & c & Hrl & Hk & Hs & Hc & Hid)];
     [contradiction|].
   destruct Hs as (n & Hn & Hcands & Hev & Hnd).
-  destruct (victims_eligible eps E _ _ _ _ c Hnd (Hev c Hc)) as (Hcl' & tier & Hd & Hall).
+  destruct (victims_eligible eps (with_qorder E (a_qorder r)) _ _ _ _ c Hnd (Hev c Hc)) as (Hcl' & tier & Hd & Hall).
   pose proof (Hcands c Hcl') as Hcl''. apply node_cands_in in Hcl'' as [Hi Hcok].
   exists r, c, n. split; [exact Hrl|]. split; [exact Hk|]. split; [exact Hc|]. split; [exact Hid|].
   split; [exact Hn|]. split; [exact Hi|]. split; [exact Hcok|]. split; [exact Hcl'|].
-  exists tier. split; [exact Hd|exact Hall].
+  exists tier. split; [exact Hd|]. intros pl Hpl Hen. specialize (Hall pl Hpl Hen).
+  destruct (p_kind pl); exact Hall.
 Qed.
 
 (* a handler fault on (preemptor, node) - Statement.Pipeline fails - never yields an assignment: the
@@ -184,7 +188,7 @@ Section FallThrough.
     mkTask i j 1%positive 1%positive 0 empty_res empty_res false true Running (Some 1%positive).
   Let jb (i : positive) : job := mkJob i 1%positive 0 ∅ 0 ∅ ∅ empty_res empty_res ∅ ∅.
   Let s0 : sess := mkSess ∅ {[1%positive := jb 1; 2%positive := jb 2]} ∅ ∅ [] ∅ ∅ ∅ [] [] ∅ ∅ true.
-  Let E0 : env := mkEnv [[mkPlug KPrio true true]; [mkPlug KConf true true]] ∅ ∅ ∅ ∅ [].
+  Let E0 : env := mkEnv [[mkPlug KPrio true true]; [mkPlug KConf true true]] ∅ ∅ ∅ ∅ [] [].
   Let victim := tk 11 1.
   Let preemptor := tk 21 2.
 
